@@ -464,6 +464,11 @@ def record_outcomes(chk, case, ref_sinr, parts):
     cfg = (case["kind"], case["chan"], case.get("var"), tuple(case["Nr"]), tuple(case["Nt"]),
            tuple(case["Ns"]), case["pl"], repr(case["noise"]), repr(case["NtE"]), repr(case["pe"]),
            case.get("cls"), case.get("fmode"), case.get("wmode"), bool(case.get("int_layout")))
+    if case["kind"] == "hist":
+        chk.outcome("history_model_state", cfg + (case["model_key"],))
+        if nontrivial:
+            chk.nontriv(cfg + (case["s"], case["model_key"], len(case["hist"])))
+        return
     chk.outcome("configuration", cfg)
     if nontrivial:
         chk.nontriv(cfg + (case["s"],))
@@ -483,10 +488,13 @@ def rescaled(U, r):
 # ----------------------------------------------------------------------
 # channel-object case
 # ----------------------------------------------------------------------
-def run_chan_case(case, chk):
-    view = view_of(case)
+def run_chan_case(case, chk, live=None):
+    """live = dict(view, inp, ch): evaluate the state-dependent relations on a LIVE channel object
+    whose current state is described by `inp` / `case` (history exploration) instead of building
+    a fresh object"""
+    view = live["view"] if live else view_of(case)
     with chk.guard((view,), case):
-        inp = make_inputs(case)
+        inp = live["inp"] if live else make_inputs(case)
         K, Ns = inp["K"], case["Ns"]
         jp = case["var"] == "JP"
         ext = case["chan"] == "ext"
@@ -497,9 +505,9 @@ def run_chan_case(case, chk):
         Ul = inp["U"]
         ref_sinr, parts = ref.sinr(Fl, Ul, jp)
         record_outcomes(chk, case, ref_sinr, parts)
-        chk.count("eval_chan_cases")
+        chk.count("eval_hist_chan_observations" if live else "eval_chan_cases")
 
-        ch = build_channel(case, inp)
+        ch = live["ch"] if live else build_channel(case, inp)
         pe_args = () if (not ext or case["pe"] is None) else (case["pe"],)
         fn = ch.calc_JP_SINR if jp else ch.calc_SINR
         name = "calc_JP_SINR" if jp else "calc_SINR"
@@ -511,16 +519,17 @@ def run_chan_case(case, chk):
         compare_sinr(chk, view, name + "_vs_first_principles", case, got, ref_sinr, parts)
 
         # 2. list containers give the identical numbers
-        got_l = fn(list(Fl), list(Ul), *pe_args)
-        chk.count("eval_list_container")
-        same = check_shape(chk, view, name + "_list", case, got_l, Ns) and \
-            all(np.array_equal(np.asarray(got_l[k]), np.asarray(got[k])) for k in range(K))
-        if not same:
-            chk.fail((view, name, "list_vs_object_array"), case, observed=list(got_l),
-                     expected=list(got))
+        if not live:
+            got_l = fn(list(Fl), list(Ul), *pe_args)
+            chk.count("eval_list_container")
+            same = check_shape(chk, view, name + "_list", case, got_l, Ns) and \
+                all(np.array_equal(np.asarray(got_l[k]), np.asarray(got[k])) for k in range(K))
+            if not same:
+                chk.fail((view, name, "list_vs_object_array"), case, observed=list(got_l),
+                         expected=list(got))
 
         # 3. pe omitted == pe = 1.0
-        if ext and case["pe"] is None:
+        if ext and case["pe"] is None and not live:
             got_1 = fn(objarr(Fl), objarr(Ul), 1.0)
             chk.count("eval_pe_default")
             if not all(np.array_equal(np.asarray(got_1[k]), np.asarray(got[k])) for k in range(K)):
@@ -528,7 +537,7 @@ def run_chan_case(case, chk):
                          expected=list(got_1))
 
         # 4. rescaling the receive filter columns changes nothing
-        for r in range(len(FACTORS)):
+        for r in range(0 if live else len(FACTORS)):
             got_r = fn(objarr(Fl), objarr(rescaled(Ul, r)), *pe_args)
             if check_shape(chk, view, name + "_rescaled", case, got_r, Ns):
                 compare_sinr(chk, view, name + "_filter_rescale_invariance", case, got_r,
@@ -582,6 +591,8 @@ def run_chan_case(case, chk):
                                 ref.cov(k, Fl, jp, skip=none), 0.0)
 
         # 6. Shannon sum capacity helper on the reported values
+        if live:
+            return
         from pyphysim.util import misc
         flat = np.hstack([np.asarray(got[k], dtype=float) for k in range(K)])
         want = 0.0
@@ -637,21 +648,27 @@ def oracle_full_filter(ref, fullF, W, k):
     return UH.conj().T, families.cond(M)
 
 
-def run_solver_case(case, chk):
+def run_solver_case(case, chk, live=None):
+    """live = dict(view, inp, ch, sol, Fn, P, fullF, W, stale): relations on a LIVE solver bound to
+    a live channel object (history exploration); stale = the solver cached its derived
+    full_W_H before the channel object was changed"""
     ext = case["chan"] == "ext"
-    view = "solver_extint" if ext else "solver"
+    view = live["view"] if live else ("solver_extint" if ext else "solver")
     with chk.guard((view,), case):
         import pyphysim.ia.algorithms as alg
         import pyphysim.ia.iabase as iabase
-        inp = make_inputs(case)
+        inp = live["inp"] if live else make_inputs(case)
         K, Ns = inp["K"], case["Ns"]
         # bound to the ExtInt channel the solver can only mean the library default pe = 1
         # (that is what its own calc_Q passes on)
         ref = Ref(case["Nr"], case["Nt"], inp["ntE"], inp["Hraw"], inp["PL"], case["noise"],
                   1.0 if ext else 0.0)
-        Fn, P, fullF = solver_inputs(case, inp)
-        W = inp["U"]
-        ch = build_channel(case, inp)
+        if live:
+            Fn, P, fullF, W, ch = live["Fn"], live["P"], live["fullF"], live["W"], live["ch"]
+        else:
+            Fn, P, fullF = solver_inputs(case, inp)
+            W = inp["U"]
+            ch = build_channel(case, inp)
         cls = getattr(iabase, case["cls"], None) or getattr(alg, case["cls"])
 
         def make_solver(Wmats):
@@ -668,15 +685,22 @@ def run_solver_case(case, chk):
                 sol.set_receive_filters(W_H=objarr([np.array(m).conj().T for m in Wmats]))
             return sol
 
-        sol = make_solver(W)
-        chk.count("eval_solver_cases")
+        sol = live["sol"] if live else make_solver(W)
+        chk.count("eval_hist_solver_observations" if live else "eval_solver_cases")
 
         # oracle: independently derived full filter, then the scalar-sum SINR
         Ufull, conds = [], []
-        for k in range(K):
-            Uk, cd = oracle_full_filter(ref, fullF, W, k)
-            Ufull.append(Uk)
-            conds.append(cd)
+        if live and live["stale"]:
+            # the derived filter was computed for an earlier channel state: first principles are
+            # evaluated for the filter the solver reports (its precoders still come from the model)
+            chk.count("hist_solver_observations_with_reported_filter")
+            Ufull = [np.asarray(sol.full_W[k]) for k in range(K)]
+            conds = [1.0] * K
+        else:
+            for k in range(K):
+                Uk, cd = oracle_full_filter(ref, fullF, W, k)
+                Ufull.append(Uk)
+                conds.append(cd)
         ref_sinr, parts = ref.sinr(fullF, Ufull, False)
         record_outcomes(chk, case, ref_sinr, parts)
         chk.outcome("cond_WHF_decade", decade(max(conds)))
@@ -724,7 +748,7 @@ def run_solver_case(case, chk):
                              record=False)
 
         # rescaling the filter columns handed to the solver
-        for r in range(len(FACTORS)):
+        for r in range(0 if live else len(FACTORS)):
             sol_r = make_solver(rescaled(W, r))
             got_r = sol_r.calc_SINR()
             if check_shape(chk, view, "calc_SINR_rescaled", case, got_r, Ns):
@@ -802,7 +826,7 @@ def run_solver_case(case, chk):
 
         # deprecated calc_SINR_old on the sub-domain where its formula IS the definition
         # (two users, one stream each, unit powers: nothing is summed coherently)
-        if K == 2 and all(n == 1 for n in Ns) and case["fmode"] == "F_P1" and not ext:
+        if K == 2 and all(n == 1 for n in Ns) and case["fmode"] == "F_P1" and not ext and not live:
             old = sol.calc_SINR_old()
             ref_o, parts_o = ref.sinr(Fn, W, False)
             if check_shape(chk, view, "calc_SINR_old", case, old, Ns):
@@ -825,8 +849,291 @@ def check_shape_db(chk, view, case, got, Ns):
 
 
 # ----------------------------------------------------------------------
+# Part H: object-reuse histories (explicit-state BFS over ONE channel object + ONE bound solver)
+# ----------------------------------------------------------------------
+# Events.  Mutators change the object, "touch" events only evaluate library functions (they
+# populate the lazily filled caches - without them a rebuilt state never has a warm cache).  In
+# every reached state ALL state-dependent relations are evaluated against the first-principles
+# oracle of the CURRENT model state (path loss, noise, channel member, precoders, filters, powers).
+EV_FULL = ([("pl", 0), ("pl", 1), ("pl", 2)] +
+           [("noise", i) for i in range(len(NOISES))] +
+           [("init", 1), ("init", 0), ("rand", 2)] +
+           [("setF", "a"), ("setF", "b"), ("setFull", "b"), ("setW", "a"), ("setW", "b")] +
+           [("P", 0), ("P", 1)] +
+           [("touch", "IC"), ("touch", "JP"), ("touch", "solver")])
+EV_CORE = [("pl", 0), ("pl", 1), ("pl", 2), ("noise", 0), ("noise", 2), ("init", 1), ("rand", 2),
+           ("setF", "b"), ("setW", "b"), ("P", 1),
+           ("touch", "IC"), ("touch", "JP"), ("touch", "solver")]
+EVENT_NAME = {"pl": "set_pathloss", "noise": "noise_var", "init": "init_from_channel_matrix",
+              "rand": "randomize", "setF": "set_precoders", "setFull": "set_precoders",
+              "setW": "set_receive_filters", "P": "P_setter"}
+
+
+def hist_configs(tier):
+    """(chan, NtE, Nr, Nt, Ns, s, alphabet name, depth)"""
+    thorough = tier == "thorough"
+    classes = [("plain", None), ("ext", 1), ("ext", [1, 1])]
+    out = []
+    for chan, NtE in classes:
+        out.append((chan, NtE, [2, 2], [2, 2], [2, 1], 0, "full", 2))
+        out.append((chan, NtE, [2, 2], [2, 2], [2, 1], 0, "core", 3))
+    if thorough:
+        for chan, NtE in classes + [("ext", 2)]:
+            for Nr, Nt, Ns in (([2, 2], [2, 2], [1, 2]), ([2, 2, 3], [2, 3, 2], [1, 2, 2])):
+                for s in (0, 1):
+                    out.append((chan, NtE, Nr, Nt, Ns, s, "full", 3))
+        for chan, NtE in classes:
+            out.append((chan, NtE, [2, 2], [2, 2], [2, 1], 1, "core", 4))
+    return out
+
+
+def hist_units(tier):
+    """one BFS unit per (configuration, first event): the units are sharded over the workers"""
+    offs = _offs()
+    for chan, NtE, Nr, Nt, Ns, s, alpha, depth in hist_configs(tier):
+        evs = EV_FULL if alpha == "full" else EV_CORE
+        base = dict(kind="hist", chan=chan, NtE=NtE, Nr=list(Nr), Nt=list(Nt), Ns=list(Ns), s=s,
+                    offs=offs, cls="IASolverBaseClass", alphabet=alpha, depth=depth)
+        yield dict(base, first=None)
+        for ev in evs:
+            yield dict(base, first=list(ev))
+
+
+def hist_data(cfg):
+    """every matrix an event or an observation can refer to (closed-form family members)"""
+    Nr, Nt, Ns = cfg["Nr"], cfg["Nt"], cfg["Ns"]
+    K = len(Nr)
+    ntE = nte_list(cfg)
+    shapeH = (sum(Nr), sum(Nt) + sum(ntE))
+    H = {0: gen(cfg, 21, 0, shapeH), 1: gen(cfg, 21, 20, shapeH), 2: gen(cfg, 21, 21, shapeH)}
+    PL = {0: None}
+    for i, idx in ((1, 1), (2, 5)):
+        g = gen(cfg, 24, idx, (K, K + len(ntE)))
+        PL[i] = 0.02 + 1.3 * (np.abs(g) - 0.1) ** 2
+    F = {"a": [gen(cfg, 22, 2 + k, (Nt[k], Ns[k])) for k in range(K)],
+         "b": [gen(cfg, 22, 30 + k, (Nt[k], Ns[k])) for k in range(K)]}
+    W = {"a": [gen(cfg, 23, 14 + k, (Nr[k], Ns[k])) for k in range(K)],
+         "b": [gen(cfg, 23, 40 + k, (Nr[k], Ns[k])) for k in range(K)]}
+    Fjp = [gen(cfg, 25, 8 + k, (sum(Nt), Ns[k])) for k in range(K)]
+    return dict(K=K, ntE=ntE, H=H, PL=PL, F=F, W=W, Fjp=Fjp, U=W["a"],
+                Pvec=np.array(P_UNEQUAL[:K], dtype=float))
+
+
+def _unit(F):
+    return [M / math.sqrt(float(np.sum(np.abs(M) ** 2))) for M in F]
+
+
+def hist_model(hist):
+    """reference model of the object state: pure function of the event history"""
+    m = dict(mem=0, pl=0, noise=0, F=("unit", "a"), W="a", P=0, cached=False, stale=False,
+             last="constructed")
+    for kind, arg in hist:
+        if kind == "touch":
+            if arg == "solver":
+                m["cached"] = True
+            continue
+        m["last"] = EVENT_NAME[kind]
+        if kind == "pl":
+            m["pl"] = arg
+        elif kind == "noise":
+            m["noise"] = arg
+        elif kind in ("init", "rand"):
+            m["mem"] = arg
+        elif kind == "setF":
+            m["F"] = ("unit", arg)
+        elif kind == "setFull":
+            m["F"] = ("full", arg)
+        elif kind == "setW":
+            m["W"] = arg
+        elif kind == "P":
+            m["P"] = arg
+            if m["F"][0] == "full":          # an explicit full_F is dropped with the power
+                m["F"] = ("unit_of_full", m["F"][1])
+        if kind in ("pl", "init", "rand"):
+            if m["cached"]:
+                m["stale"] = True            # solver's derived filter belongs to the old channel
+        elif kind in ("setF", "setFull", "setW", "P"):
+            m["cached"] = m["stale"] = False
+    return m
+
+
+def model_precoders(m, data):
+    """-> (Fn handed to / implied for the solver, P, ideal full_F)"""
+    K = data["K"]
+    how, which = m["F"]
+    P = data["Pvec"] if m["P"] else None
+    scaled = [data["F"][which][k] * (1.7 + 0.9 * k) for k in range(K)]
+    if how == "unit":
+        Fn = _unit(data["F"][which])
+    else:
+        Fn = _unit(scaled)
+    if how == "full":
+        fullF = scaled
+    else:
+        fullF = [Fn[k] * (math.sqrt(P[k]) if P is not None else 1.0) for k in range(K)]
+    return Fn, P, fullF
+
+
+class HistState:
+    pass
+
+
+def hist_build(cfg, data, hist):
+    from pyphysim.channels import multiuser
+    from pyphysim.ia.iabase import IASolverBaseClass
+    from vmc import seams
+    Nr, Nt = np.array(cfg["Nr"]), np.array(cfg["Nt"])
+    K = data["K"]
+    ext = cfg["chan"] == "ext"
+    NtE = cfg["NtE"]
+    NtE_arg = None if not ext else (int(NtE) if isinstance(NtE, (int, np.integer))
+                                    else [int(v) for v in NtE])
+
+    def init(mem):
+        Hm = np.array(data["H"][mem], copy=True)
+        if ext:
+            ch.init_from_channel_matrix(Hm, np.array(Nr), np.array(Nt), K, NtE_arg)
+        else:
+            ch.init_from_channel_matrix(Hm, np.array(Nr), np.array(Nt), K)
+
+    ch = multiuser.MultiUserChannelMatrixExtInt() if ext else multiuser.MultiUserChannelMatrix()
+    init(0)
+    sol = IASolverBaseClass(ch)
+    sol.set_precoders(F=objarr(_unit(data["F"]["a"])))
+    sol.set_receive_filters(W=objarr([np.array(m_) for m_ in data["W"]["a"]]))
+    st = HistState()
+    st.ch, st.sol = ch, sol
+    pe_touch = (0.5,) if ext else ()
+    for kind, arg in hist:
+        if kind == "pl":
+            PLm = data["PL"][arg]
+            if PLm is None:
+                ch.set_pathloss(None)
+            elif ext:
+                ch.set_pathloss(np.array(PLm[:, :K], copy=True), np.array(PLm[:, K:], copy=True))
+            else:
+                ch.set_pathloss(np.array(PLm, copy=True))
+        elif kind == "noise":
+            ch.noise_var = NOISES[arg]
+        elif kind == "init":
+            init(arg)
+        elif kind == "rand":
+            # the library's only random draw is scripted: it returns family member `arg`
+            def fake(_rs, *shape, H2=data["H"][arg]):
+                assert tuple(int(v) for v in shape) == H2.shape, (shape, H2.shape)
+                return np.array(H2, copy=True)
+            with seams.patched((multiuser, "randn_c_RS", fake)):
+                if ext:
+                    ch.randomize(np.array(Nr), np.array(Nt), K, NtE_arg)
+                else:
+                    ch.randomize(np.array(Nr), np.array(Nt), K)
+        elif kind == "setF":
+            sol.set_precoders(F=objarr(_unit(data["F"][arg])))
+        elif kind == "setFull":
+            sol.set_precoders(full_F=objarr([data["F"][arg][k] * (1.7 + 0.9 * k)
+                                             for k in range(K)]))
+        elif kind == "setW":
+            if arg == "a":
+                sol.set_receive_filters(W=objarr([np.array(m_) for m_ in data["W"][arg]]))
+            else:
+                sol.set_receive_filters(W_H=objarr([np.array(m_).conj().T
+                                                    for m_ in data["W"][arg]]))
+        elif kind == "P":
+            sol.P = np.array(data["Pvec"]) if arg else None
+        elif kind == "touch":
+            if arg == "IC":
+                ch.calc_SINR(objarr(data["F"]["a"]), objarr(data["U"]), *pe_touch)
+                ch.calc_Q(0, objarr(data["F"]["a"]), *pe_touch)
+            elif arg == "JP":
+                ch.calc_JP_SINR(objarr(data["Fjp"]), objarr(data["U"]), *pe_touch)
+                ch.calc_JP_Q(0, objarr(data["Fjp"]), *pe_touch)
+            else:
+                sol.calc_SINR()
+                sol.calc_Q(0)
+        else:
+            raise ValueError(kind)
+    return st
+
+
+def hist_observe(chk, cfg, data, hist, st):
+    """all state-dependent relations for the CURRENT state against the first-principles oracle"""
+    m = hist_model(hist)
+    ext = cfg["chan"] == "ext"
+    inp = dict(K=data["K"], ntE=data["ntE"], Hraw=data["H"][m["mem"]], PL=data["PL"][m["pl"]],
+               F=data["F"]["a"], Fjp=data["Fjp"], U=data["U"])
+    mk = (m["mem"], m["pl"], m["noise"], m["F"], m["W"], m["P"], m["cached"], m["stale"])
+    sub = dict(cfg, hist=[list(e) for e in hist], noise=NOISES[m["noise"]], pl=m["pl"],
+               fmode="hist", wmode="hist", int_layout=False, model_key=repr(mk))
+    tag = "after_" + m["last"]
+    cname = "chan_plain" if not ext else "chan_extint"
+    for var, pe in (("IC", 0.5 if ext else None), ("JP", None)):
+        run_chan_case(dict(sub, var=var, pe=pe), chk,
+                      live=dict(view="hist|%s_%s|%s" % (cname, var, tag), inp=inp, ch=st.ch))
+    Fn, P, fullF = model_precoders(m, data)
+    run_solver_case(dict(sub, var=None, pe=None), chk,
+                    live=dict(view="hist|%s|%s" % ("solver_extint" if ext else "solver", tag),
+                              inp=inp, ch=st.ch, sol=st.sol, Fn=Fn, P=P, fullF=fullF,
+                              W=data["W"][m["W"]], stale=m["stale"]))
+    return mk
+
+
+def run_hist_unit(unit, chk):
+    from vmc import bfs
+    cfg = {k: v for k, v in unit.items() if k != "first"}
+    data = hist_data(cfg)
+    evs = [tuple(e) for e in (EV_FULL if cfg["alphabet"] == "full" else EV_CORE)]
+    with chk.guard(("hist", cfg["chan"]), dict(cfg, hist=[unit["first"]] if unit["first"] else [])):
+        if unit["first"] is None:
+            st = hist_build(cfg, data, ())
+            hist_observe(chk, cfg, data, (), st)
+            chk.states += 1
+            return
+        observed = set()
+        last = {}
+
+        def build(hist):
+            return hist_build(cfg, data, hist)
+
+        def canon(hist, st):
+            m = hist_model(hist)
+            key = (m["mem"], m["pl"], m["noise"], m["F"], m["W"], m["P"],
+                   bfs.digest([vars(st.ch), {k: v for k, v in vars(st.sol).items()
+                                             if k != "_multiUserChannel"}], 9))
+            last["key"] = key
+            return key
+
+        def invariant(hist, st):
+            key = last["key"]
+            if key in observed:           # field-for-field identical object: same observations
+                chk.count("hist_transitions_into_known_state")
+                return
+            observed.add(key)
+            hist_observe(chk, cfg, data, hist, st)
+
+        b = bfs.BFS(chk, build, lambda h, st: evs, invariant, canon, cfg["depth"] - 1,
+                    label="hist")
+        b.run([(tuple(unit["first"]),)])
+        chk.outcome("history_depth", (cfg["alphabet"], b.depth_reached))
+
+
+def replay_hist(case, chk):
+    cfg = {k: v for k, v in case.items()
+           if k in ("kind", "chan", "NtE", "Nr", "Nt", "Ns", "s", "offs", "cls", "alphabet", "depth")}
+    data = hist_data(cfg)
+    hist = tuple((e[0], e[1]) for e in case["hist"])
+    with chk.guard(("hist", cfg["chan"]), case):
+        st = hist_build(cfg, data, hist)
+        hist_observe(chk, cfg, data, hist, st)
+
+
+# ----------------------------------------------------------------------
 def run_case(case, chk):
-    if case["kind"] == "chan":
+    if case["kind"] == "hist":
+        if "hist" in case:
+            replay_hist(case, chk)
+        else:
+            run_hist_unit(case, chk)
+    elif case["kind"] == "chan":
         run_chan_case(case, chk)
     else:
         run_solver_case(case, chk)
@@ -851,9 +1158,13 @@ def main(chk: Check):
     chk.extra["filter_rescale_factors"] = [repr(f) for f in FACTORS]
     ncase = sum(1 for _ in all_cases(chk.tier))
     chk.extra["enumerated_cases"] = ncase
+    chk.extra["history_units"] = sum(1 for _ in hist_units(chk.tier))
+    chk.extra["history_configurations"] = [list(c[:6]) + [c[6], "depth %d" % c[7]]
+                                           for c in hist_configs(chk.tier)]
 
     def worker(i, n, c):
-        for case in shard(all_cases(c.tier), i, n):
+        # the (heavier) history units first so that they spread evenly over the workers
+        for case in shard(itertools.chain(hist_units(c.tier), all_cases(c.tier)), i, n):
             run_case(case, c)
 
     run_shards(chk, worker)
